@@ -356,6 +356,11 @@ class Fn:
         if d in ('std::convert::Into::into', 'std::convert::From::from') and args:
             return f'into<{short_ty(self.locals[t[3]] if isinstance(t[3], int) else "")}>({args[0]})'
         name = strip_generics(c.get('res') or c['def']).replace(', ', ';').replace(',', ';')
+        # awaiting an async fn / async block: poll of the coroutine body built by the call
+        if len(args) == 2 and 'get_context(' in args[1] and (name.endswith('::{closure#0}') or d == 'std::future::Future::poll'):
+            return f'await({args[0]})'
+        if d == 'std::future::Future::poll' and args:
+            return f'await({args[0]})'
         return f'{name}(' + ','.join(args) + ')'
 
     # ---------------------------------------------------------- edge propositions
